@@ -466,7 +466,7 @@ theorem typeInfoFunc_spec {T : Table} {named : List Bool} {infos infos' : List T
         intro a f ha
         have := step_get (fl := .error) (C := fun a => a = d) setError_get hg3 a f
         rw [this, Bool.or_eq_true, hbase a f ha]
-        cases f <;> simp [Marked, hl2, ha, hres, hT, hd] <;> grind
+        cases f <;> simp [Marked, hl2, ha, hres, hT] <;> grind
     · rename_i val hcontra hne
       simp only [Option.some.injEq] at h
       subst h
